@@ -15,6 +15,7 @@ LoadVars(vs) == [k \in DOMAIN vs |-> LoadVal(vs[k])]
 
 Ctx(ev) == [f |-> Forest, n |-> <<ev.doc, ev.ctx, 0>>, pos |-> ev.pos, size |-> ev.size,
             vars |-> LoadVars(ev.vars), keys |-> <<>>,
+            dyn |-> IF "dyn" \in DOMAIN ev THEN [k \in 1..Len(ev.dyn) |-> LET q == IF ev.dyn[k].lexok THEN Parse(ev.dyn[k].toks, ev.nsmap) ELSE Fail IN [text |-> ev.dyn[k].text, ok |-> q.ok, ast |-> q.ast]] ELSE <<>>,
             cur |-> IF "cur" \in DOMAIN ev THEN <<ev.cur[1], ev.cur[2], 0>> ELSE <<ev.doc, ev.ctx, 0>>]   \* current() may be in another document
 
 (* the value a typed entry point must deliver: the standard conversion of the general value *)
@@ -42,7 +43,9 @@ OrderOk(ev) == ("error" \in DOMAIN ev) \/ ev.res.t # "ns" \/ SeqOrderOk(Delivere
 C02Step(s, ev) ==
   LET hasToks == "toks" \in DOMAIN ev
       pr == IF ~hasToks THEN Ok(ev.expr, 0) ELSE IF ev.lexok THEN Parse(ev.toks, ev.nsmap) ELSE Fail
-      consistent == ~hasToks \/ "expr" \notin DOMAIN ev \/ (pr.ok /\ pr.ast = ev.expr)
+      consistent == /\ ~hasToks \/ "expr" \notin DOMAIN ev \/ (pr.ok /\ pr.ast = ev.expr)
+                    /\ "dyn" \in DOMAIN ev => \A k \in 1..Len(ev.dyn) : LET q == IF ev.dyn[k].lexok THEN Parse(ev.dyn[k].toks, ev.nsmap) ELSE Fail IN
+                                                                                   IF ev.dyn[k].bad THEN ~q.ok ELSE q.ok /\ q.ast = ev.dyn[k].ast
       isErr == "error" \in DOMAIN ev
   IN IF ~consistent
      THEN [ok |-> FALSE, st |-> s, drop |-> FALSE, cont |-> TRUE,
